@@ -3,7 +3,7 @@ import vlib
 from props import solverstream as ss, tracecheck as tc, antie
 
 THEOREMS = ["C05_oracle_correct", "C05_run_trail_legal", "C05_supported", "C05_trace_supported",
-            "C05_propagate_sound", "C05_checked_propagate_sound", "C05_grows_justified", "C05_start_watching_keeps_invariant", "C05_solver_model_invariant", "C05_solver_model_propagate_sound", "C05_solver_model_propagate_keeps_levels", "C05_solver_model_learn_keeps_levels"]
+            "C05_propagate_sound", "C05_checked_propagate_sound", "C05_grows_justified", "C05_start_watching_keeps_invariant", "C05_solver_model_invariant", "C05_solver_model_propagate_sound", "C05_solver_model_propagate_keeps_levels", "C05_solver_model_learn_keeps_levels", "C05_propagate_complete", "C05_complete_no_watched_falsified", "C05_checked_propagate_complete", "C05_inv2_kept_outside_propagate"]
 CHECKER = ("coqc Props/C05.v + Print Assumptions; harness solve_cases: (a) hook logs -> extracted check_sat_log (legal run, "
            "theorem C05_trace_supported), (b) extracted o_supported on every solution, (c) hook logs -> extracted check_propagates: "
            "every call of Solver::propagate must make exactly the assignments (literal, level, reason clause, in order) of the "
@@ -28,7 +28,7 @@ def run(res, tier, seed, replay):
         if not antie.ok_propagates(r):
             res.tie_break(f"propagate correspondence no longer checks for a run in {r['stream']}: a call of Solver::propagate made other "
                           f"assignments (or in another order, with another reason) or ended differently than the model (Cdcl/Propagate.v), "
-                          f"or a hypothesis of C05_propagate_sound fails: {r['props']}", dict(tc.trace_replay(r), propagate=r["props"]))
+                          f"or a hypothesis of C05_propagate_sound / C05_propagate_complete fails (comp_bad = calls at which the completeness hypotheses did not hold): {r['props']}", dict(tc.trace_replay(r), propagate=r["props"]))
     n, exempt_cases = 0, 0
     for r in recs:
         k = ss.outcome_kind(r["obs"]["outcome"])
